@@ -408,6 +408,51 @@ class _Rename(ast.NodeTransformer):
         return n
 
 
+def _mutates(stmts: list[ast.stmt], names: set[str]) -> bool:
+    mod = ast.Module(body=list(stmts), type_ignores=[])
+    fake = ast.FunctionDef(name="_", args=ast.arguments(posonlyargs=[], args=[], kwonlyargs=[], kw_defaults=[], defaults=[]), body=list(stmts), decorator_list=[])
+    m = set()
+    for n in ast.walk(mod):
+        if isinstance(n, ast.Name) and isinstance(n.ctx, (ast.Store, ast.Del)) and n.id in names:
+            return True
+    MUT = {"append", "extend", "insert", "pop", "remove", "clear", "update", "setdefault", "sort", "reverse", "discard", "add", "popitem", "shuffle"}
+    for n in ast.walk(mod):
+        if isinstance(n, ast.Call) and isinstance(n.func, ast.Attribute) and n.func.attr in MUT:
+            b = n.func.value
+            while isinstance(b, (ast.Attribute, ast.Subscript)):
+                b = b.value
+            if isinstance(b, ast.Name) and b.id in names:
+                return True
+        if isinstance(n, (ast.Assign, ast.AugAssign, ast.AnnAssign)):
+            tg = n.targets if isinstance(n, ast.Assign) else [n.target]
+            for t in tg:
+                b = t
+                while isinstance(b, (ast.Attribute, ast.Subscript)):
+                    b = b.value
+                if isinstance(b, ast.Name) and b.id in names and not isinstance(t, ast.Name):
+                    return True
+    return False
+
+
+def _no_intervening_mutation(blk: list[ast.stmt], st: ast.stmt, name: str, clash: set[str]) -> bool:
+    i = blk.index(st)
+    last = None
+    for k in range(i + 1, len(blk)):
+        if any(isinstance(n, ast.Name) and n.id == name and isinstance(n.ctx, ast.Load) for n in ast.walk(blk[k])):
+            last = k
+    if last is None:
+        return False
+    # uses outside this block?  (then the definition does not reach them in a way we can see)
+    if _mutates(blk[i + 1:last], clash):
+        return False
+    tail = blk[last]
+    if isinstance(tail, (ast.If, ast.While)):
+        uses_in_test = any(isinstance(n, ast.Name) and n.id == name for n in ast.walk(tail.test))
+        uses_in_body = any(isinstance(n, ast.Name) and n.id == name for b in (tail.body, tail.orelse) for s_ in b for n in ast.walk(s_))
+        return uses_in_test and not uses_in_body
+    return not _mutates([tail], clash)
+
+
 def _propagate_new_locals(fn: ast.FunctionDef, ref_locals: list[str], log: list[str]) -> None:
     "R2 (in place)"
     for _ in range(8):
@@ -442,7 +487,9 @@ def _propagate_new_locals(fn: ast.FunctionDef, ref_locals: list[str], log: list[
                 continue
             clash = used & mutated
             if clash and not (clash <= _element_stored_only(fn) and _shape_reads_only(rhs, clash)):
-                continue
+                # still safe when nothing between the definition and its (same-block) uses re-binds or mutates those names
+                if not _no_intervening_mutation(blk, st, name, clash):
+                    continue
             # every use must come after the definition in the same or a nested block (definition dominates uses): require the
             # definition to sit in the function's top-level body or in the block that contains all uses
             uses = [n for n in _walk_fn(fn) if isinstance(n, ast.Name) and n.id == name and isinstance(n.ctx, ast.Load)]
